@@ -59,7 +59,11 @@ func vLexEvents(src *vSource, opts *LexerOptions) ([]vEvent, error) {
 		*evs = append(*evs, ev)
 		return nil
 	}
-	lex, err := NewLexer(src, &o)
+	var rs io.ReadSeeker = src
+	if vSourceSized {
+		rs = vSourceLen{src}
+	}
+	lex, err := NewLexer(rs, &o)
 	if err != nil {
 		return evs, err
 	}
@@ -187,7 +191,11 @@ func VC09Cut() {
 		vAssert(e1 == io.EOF, "the whole file iterates to EOF")
 		src2 := vNewSource(file)
 		src2.limit = int64(L)
-		gotM, e2 := vIterMessages(vReadOnly{src2})
+		var rd2 io.Reader = vReadOnly{src2}
+		if vParam("sized") == 1 {
+			rd2 = vReadOnlyLen{src2}
+		}
+		gotM, e2 := vIterMessages(rd2)
 		vAssert(e2 != nil, "a cut iteration ends with end-of-file or an error")
 		vMsgsPrefix(gotM, refM, "iterator")
 		// every message of every completely written chunk is returned
@@ -209,7 +217,9 @@ func VC09Cut() {
 	}
 	src := vNewSource(file)
 	src.limit = int64(L)
+	vSourceSized = vParam("sized") == 1 // sized=1: the cut source also has Len()/Size(), like bytes.Reader
 	got, gerr := vLexEvents(src, lopts)
+	vSourceSized = false
 	vAssert(gerr != nil, "a cut read ends with end-of-file or an error")
 	vEventsPrefix(got, ref, true, "lexer")
 	// every message of every chunk completely written before the cut is among the records returned
